@@ -435,4 +435,47 @@ def rule_presurv(ctx):
                         lambda i: C.ANNEAL in i.construct, 3)
 
 
-RULES = [rule_refresh, rule_keys, rule_assess, rule_fail, rule_presurv]
+def rule_sharedfn(ctx):
+    """(seed C08_9) One trial-function object (the stack of wrappers around the method's trial function, and
+    the objective) serves all trials of a search; on a thread pool several trials run through it at once.
+    A wrapper that parks per-trial data on itself (`self.tree = trial["tree"]`) lets one trial read the
+    other's tree, and the recorded figures describe a tree that is not the trial's.  Clause: `__call__` of
+    every wrapper / objective writes no attribute of `self` that it also reads (its own random generator excepted)."""
+    r = RuleResult("C08-SHAREDFN", "trial-function wrappers and objectives keep no per-trial state", 12)
+    classes = []
+    for path in ((C.HYPER, C.SCORING) if ctx.tier != "thorough" else sorted(ctx.p.modules)):
+        m = ctx.p.modules.get(path)
+        if m is None:
+            continue
+        for c in m.classes.values():
+            call = c.methods.get("__call__")
+            if call is None:
+                continue
+            init = c.lookup("__init__")
+            wraps = False
+            if init is not None:
+                for n in walk_local(init.node):
+                    if isinstance(n, ast.Assign) and isinstance(n.targets[0], ast.Attribute) and \
+                            n.targets[0].attr in ("trial_fn", "fn") and dotted(n.targets[0].value) == "self":
+                        wraps = True
+            is_objective = any(b.name == "Objective" for b in c.mro()[1:]) if hasattr(c, "mro") else False
+            if wraps or is_objective:
+                classes.append((c, call, "wrapper" if wraps else "objective"))
+    for c, call, kind in classes:
+        key = ctx.key(call, "C08-SHAREDFN")
+        t = ctx.effects.transitive(call)
+        # only state that flows back into a trial matters: a write-only statistic is not per-trial data
+        wrote = sorted(((t["write"] | t["mutate"]) & t["read"]) - {"rng", "_rng"})
+        if wrote:
+            site = [a for a in ctx.effects.direct(call)["access"] if a.recv == "self" and a.attr in wrote
+                    and a.kind in ("write", "mutate")]
+            r.violation(key, site[0].loc if site else call.loc,
+                        f"{c.name}.__call__ stores per-trial data on the shared {kind} object (self.{wrote[0]}): "
+                        f"trials that overlap on a thread pool read each other's value, so the figures recorded "
+                        f"for a trial can describe another trial's tree")
+        else:
+            r.ok(key, call.loc, f"{kind}: __call__ writes no attribute of self")
+    return r
+
+
+RULES = [rule_refresh, rule_keys, rule_assess, rule_fail, rule_presurv, rule_sharedfn]
